@@ -627,3 +627,70 @@ def selftest(job, seed=0):
     except TypeError:
         raised_sym = True
     job.validate("int array /= raises TypeError", float(raised_sym), float(raised_real))
+    _selftest_pandas_and_ints(job, r, run, npx)
+
+
+def _selftest_pandas_and_ints(job, r, run, npx):
+    """Index-label semantics of Series / DataFrame and numpy's integer dtype rules, against the real libraries."""
+    import numpy as np
+    import pandas as pd
+    from ..sx.sym import QI
+    from . import pd_shim
+    n = 4
+    vals = [r.uniform(1, 9) for _ in range(n)]
+    V = [Q(repr(v)) for v in vals]
+    for labels in ([3, 2, 1, 0], [2, 0, 3, 1], [5, 6, 8, 9]):
+        rs = pd.Series(vals, index=labels)
+        for key in (0, 3, 5):
+            try:
+                want = float(rs[key])
+            except KeyError:
+                want = None
+
+            def f():
+                s = pd_shim.SymSeries(V, "f8", labels)
+                try:
+                    return s[QI(key)]
+                except KeyError:
+                    return None
+            got = run(f)
+            job.validate(f"Series[{key}] by label, labels {labels}", -1.0 if got is None else float(got), -1.0 if want is None else want)
+        got = run(lambda: (pd_shim.SymSeries(V, "f8", labels) * Q(2))[1:3])
+        want = (rs * 2)[1:3]
+        for a, b in zip(got.d, want.to_numpy()):
+            job.validate("Series slice is positional", float(a), float(b))
+        job.validate("Series slice keeps labels", float(got.labels == list(want.index)), 1.0)
+        got = run(lambda: npx.interp(Q(repr(vals[0])), pd_shim.SymSeries(sorted(V), "f8", labels), pd_shim.SymSeries(V, "f8", labels)))
+        job.validate("np.interp on Series is positional", float(got), float(np.interp(vals[0], pd.Series(sorted(vals), index=labels), rs)))
+    rf = pd.DataFrame({"a": vals, "b": [1.0, -1.0, 2.0, -2.0]})
+    kept = rf[rf["b"] > 0]
+
+    def g():
+        fr = pd_shim.SymFrame({"a": SymArray(V), "b": SymArray([Q(1), Q(-1), Q(2), Q(-2)])})
+        k = fr[fr["b"] > 0]
+        try:
+            first = k["a"][QI(0)]
+        except KeyError:
+            first = None
+        try:
+            second = k["a"][QI(1)]
+        except KeyError:
+            second = None
+        return list(k.index.d), first, second, k.reset_index(drop=True)["a"][QI(1)]
+    lab, first, second, after = run(g)
+    job.validate("row filter keeps labels", float([int(x) for x in lab] == list(kept.index)), 1.0)
+    job.validate("filtered column [0] by label", float(first), float(kept["a"][0]))
+    job.validate("filtered column [1] is a KeyError", float(second is None), float(1 not in kept.index))
+    job.validate("reset_index(drop=True) restores positions", float(after), float(kept.reset_index(drop=True)["a"][1]))
+    # integer dtype rules: python scalars are weak, integer arithmetic stays integer, result_type
+    ia = np.array([3, 4], dtype=np.int32)
+    for label, real, sym in (
+            ("int32 * python int", (ia * 400).dtype, lambda: (SymArray([Q(3), Q(4)], "i4") * QI(400)).dtype_tag),
+            ("int32 ** 2 * python int", (ia ** 2 * 400).dtype, lambda: (SymArray([Q(3), Q(4)], "i4") ** QI(2) * QI(400)).dtype_tag),
+            ("python float * int32", (1.5 * ia).dtype, lambda: (Q("1.5") * SymArray([Q(3), Q(4)], "i4")).dtype_tag),
+            ("result_type(int64 array, python int)", np.result_type(ia.astype(np.int64), 650), lambda: npx.result_type(SymArray([Q(3)], "i8"), QI(650)).tag),
+            ("result_type(int64 array, python float)", np.result_type(ia.astype(np.int64), 650.0), lambda: npx.result_type(SymArray([Q(3)], "i8"), Q("650.5")).tag),
+            ("result_type(int32 array, float32)", np.result_type(ia, np.float32), lambda: npx.result_type(SymArray([Q(3)], "i4"), np.float32).tag)):
+        got = run(sym)
+        want = {"int32": "i4", "int64": "i8", "float64": "f8", "float32": "f4"}[np.dtype(real).name]
+        job.validate(f"dtype of {label}", float(got == want), 1.0, inputs={"shim": got, "numpy": want})
